@@ -194,44 +194,45 @@ type Cluster struct {
 	fairMode   bool
 	hostile    bool // a hostile input is being delivered (panics are C08 violations)
 
-	vs               *VSModel
-	forksReported    int
-	shadowSeq        int
-	fairBoundV       int
-	capped           bool
-	fairCount        int // fair cycles executed
-	fairQuiescentAt  int // fair cycle after which the network was first found quiescent (0: never)
-	storePointHook   func(n *SimNode, kind, phase string)
-	stepHook         func(s *Step)
-	blockHook        func(b *hg.Block)
-	finalHook        func()
-	byzHandler       func(s *Step)
-	byzGen           func(g *genState) *Step
-	observer         *SimNode
-	synthetic        bool
-	synthNears       [][2]string
-	keptShadows      []*keptShadow
-	realStart        time.Time
-	hostileSeen      bool
-	ffAccepted       *ffTriple
-	lastForged       *ffTriple
-	lastForgedEv     *forgedEvent
-	lastForgedVictim int
-	lastForgedEpoch  int
-	lastTampered     *ffTriple
-	lastTamperedOp   string
-	syn              *synthState
-	synTxn           int
-	refDag           *refDag
-	refFame          *refFame
-	recordWrites     bool
-	recorder         *recStore
-	curTask          *task
-	taskHarnessErr   *harnessError
-	instSeq          int
-	emitted          map[string]string
-	emitScanned      int
-	frameHashes      map[int]frameRef
+	vs                *VSModel
+	forksReported     int
+	shadowSeq         int
+	fairBoundV        int
+	capped            bool
+	fairCount         int // fair cycles executed
+	fairQuiescentAt   int // fair cycle after which the network was first found quiescent (0: never)
+	storePointHook    func(n *SimNode, kind, phase string)
+	stepHook          func(s *Step)
+	blockHook         func(b *hg.Block)
+	finalHook         func()
+	byzHandler        func(s *Step)
+	byzGen            func(g *genState) *Step
+	observer          *SimNode
+	synthetic         bool
+	synthNears        [][2]string
+	keptShadows       []*keptShadow
+	lateSetChangeSeen bool
+	realStart         time.Time
+	hostileSeen       bool
+	ffAccepted        *ffTriple
+	lastForged        *ffTriple
+	lastForgedEv      *forgedEvent
+	lastForgedVictim  int
+	lastForgedEpoch   int
+	lastTampered      *ffTriple
+	lastTamperedOp    string
+	syn               *synthState
+	synTxn            int
+	refDag            *refDag
+	refFame           *refFame
+	recordWrites      bool
+	recorder          *recStore
+	curTask           *task
+	taskHarnessErr    *harnessError
+	instSeq           int
+	emitted           map[string]string
+	emitScanned       int
+	frameHashes       map[int]frameRef
 }
 
 func clonePeers(ps []*peers.Peer) []*peers.Peer {
@@ -527,6 +528,17 @@ func (c *Cluster) failed(prop string) *Violation {
 // onDeliver is called by a SimApp for every block its node delivers.
 func (c *Cluster) onDeliver(n *SimNode, d *Delivery) {
 	c.stats.BlocksDelivered++
+	if len(d.Resp.InternalTransactionReceipts) > 0 && n.node != nil && !n.constructing {
+		// does the set this block changes come into force at a round this node
+		// already has events of? (open finding, see known_findings.json)
+		func() {
+			defer func() { recover() }()
+			if n.core().Hashgraph().Store.LastRound() >= d.Block.RoundReceived()+6 {
+				c.lateSetChangeSeen = true
+				c.stats.probe("set-change-in-force-at-a-round-that-already-has-events")
+			}
+		}()
+	}
 	if _, ok := n.deliveredFrom[d.Epoch]; !ok {
 		n.deliveredFrom[d.Epoch] = d.Block.Index()
 	}
@@ -547,7 +559,11 @@ func (c *Cluster) onDeliver(n *SimNode, d *Delivery) {
 				}
 			}
 			defer func() { c.violations[len(c.violations)-1].Message += extra }()
-			c.violate(prop, "agreement", "block-divergence",
+			key := "block-divergence"
+			if c.lateSetChangeSeen {
+				key = "set-change-in-force-at-a-round-that-already-has-events"
+			}
+			c.violate(prop, "agreement", key,
 				"node %d delivered block %d with digest %s, canonical %s (first delivered by node %d); differing fields: %s",
 				n.idx, idx, d.Digest, prev, c.chainBy[idx].idx, bodyDiff(&d.Block.Body, d.Resp.StateHash, len(d.Resp.InternalTransactionReceipts), &ref.Body))
 		}
